@@ -258,3 +258,20 @@ def ORACLE(v, scn, out):
                 bad.append('released batch %d changed' % i)
         return bad
     return None
+
+
+def _amount_d2(ctx):
+    """last sentence of C08 with two delegation entries: the Undelegate messages of the batch sum to the requests valued at the
+    recorded rates, however the plan distributes them (zero entries before non-zero ones included); world, claims and replay of
+    C02's unbond obligation"""
+    from checks.c02 import mk as mk2
+    return mk2('unbond_bsei', 1, 2)(ctx)
+
+
+def _replay_amount_d2(v, run_scenario):
+    from checks.c02 import replay_any as r2
+    return r2(v, run_scenario)
+
+
+OBLIGATIONS.append(('epoch_amount_d2', _amount_d2))
+REPLAY = dict(globals().get('REPLAY', {}), epoch_amount_d2=_replay_amount_d2)
